@@ -232,9 +232,85 @@ def _chunk(jobs):
     return out
 
 
+class FakeLoc:
+    """stands for a Location (visit() never looks inside it): gives programmatic nodes a stable identity"""
+
+    def __init__(self, n):
+        self.start = self.end = n
+
+
+def build_real(t):
+    """tree of MCVisit.tla (real kinds and field names) -> real node objects"""
+    from graphql.language import ast
+    cls = {"document": ast.DocumentNode, "operation_definition": ast.OperationDefinitionNode, "selection_set": ast.SelectionSetNode,
+           "field": ast.FieldNode, "name": ast.NameNode}[t["kind"]]
+    kw = {"loc": FakeLoc(t["id"])}
+    for f in t["fields"]:
+        kids = [build_real(k) for k in f["kids"]]
+        kw[f["name"]] = tuple(kids) if f["many"] else (kids[0] if kids else None)
+    if t["kind"] == "name":
+        kw["value"] = f"n{t['id']}"
+    if t["kind"] == "operation_definition":
+        kw["operation"] = ast.OperationType.QUERY
+    return cls(**kw)
+
+
+def _g_chunk(recs):
+    """replay of MCVisit.tla's (tree, program, RefVisit) triples on the real visit()"""
+    from graphql.language import REMOVE, Node, NameNode
+    out = []
+    for rec in recs:
+        root = build_real(rec["tree"])
+        refl = Reflect(root)
+        table = {}
+        for p in rec["prog"]:
+            obj = NameNode(value=f"REPL{p['rep']['id'] - 900000}") if p["d"] == "replace" else None
+            table[(p["ph"], p["id"])] = (p["d"], obj)
+        log, result, raised = run_visit(root, refl, table)
+        want = rec["want"]
+        problem = None
+        if raised:
+            problem = ("visit-raised", raised)
+        elif log != want["log"]:
+            k = next((i for i, (a, b) in enumerate(zip(log, want["log"])) if a != b), min(len(log), len(want["log"])))
+            problem = ("call-log-differs", {"at": k, "real": log[k:k + 1], "spec": want["log"][k:k + 1]})
+        else:
+            if want["outcome"] == "broke":
+                pass
+            elif want["outcome"] == "same" and result is not root:
+                problem = ("outcome-differs", {"spec": "same", "real": type(result).__name__})
+            elif want["outcome"] == "removed" and not (result is REMOVE or result is None):
+                problem = ("outcome-differs", {"spec": "removed", "real": type(result).__name__})
+            elif want["outcome"] == "edited":
+                if not isinstance(result, Node) or result is root:
+                    problem = ("outcome-differs", {"spec": "edited", "real": "same" if result is root else type(result).__name__})
+                elif has_sentinel(result) or refl.shape(result) != want["result"]:
+                    problem = ("result-tree-differs", {"spec": want["result"], "real": None if has_sentinel(result) else refl.shape(result)})
+        out.append((problem, rec["prog"], rec["tree"]["id"], len(rec["prog"])))
+    return out
+
+
 def run(tier: str, rd):
     ev = Evidence(PROP, tier)
     vd = Verdicts(PROP)
+    # M + G: the loop design refines the contract on every small (tree, program) pair; each pair is replayed on the real code
+    mp = 1 if tier == "quick" else 2
+    cfgm = f"INIT Init\nNEXT Next\nCONSTANT MaxPoints = {mp}\nCONSTANT GuardRoot = TRUE\nCONSTANT RemoveIsNone = TRUE\nINVARIANT Refines\nINVARIANT Emit\nCHECK_DEADLOCK FALSE\n"
+    rm = run_tlc(rd, "MCVisit", cfgm, timeout=3000, heap="12g", allow_violation=True)
+    ev.add_tlc(f"M+G: VisitLoop.tla = RefVisit on every (tree, program) pair, programs with <= {mp} decision points; pairs emitted for replay", rm)
+    if rm.invariant_violations:
+        vd.violation("model-VisitLoop-does-not-refine-contract", {"max_points": mp}, rm.tail(40), {"clause": "model-VisitLoop"})
+    grecs = list(rm.json_lines())
+    n_g = 0
+    for lst in pmap(_g_chunk, grecs, chunk=500):
+        for problem, prog, _tid, npts in lst:
+            n_g += 1
+            if problem:
+                vd.violation("G-" + problem[0], {"program": [{k: v for k, v in p.items() if k != "rep"} for p in prog]}, problem[1],
+                             {"clause": problem[0], "root_point": any(p["id"] == 1 for p in prog)})
+    ev.traces += n_g
+    for g in grecs:
+        ev.case(None, nontrivial=len(g["prog"]) >= 1, key="G" + common.digest([g["tree"], g["prog"]]))
     rng = random.Random(seed())
     jobs = []
     for n in ("kitchen_sink.graphql", "schema_kitchen_sink.graphql"):
@@ -283,7 +359,7 @@ def run(tier: str, rd):
         ev.case(None, nontrivial=len(r["prog"]) >= 1, key=common.digest([r["_meta"]["text"], r["_meta"]["program"]]))
     if recs:
         ev.sample({"text": recs[1]["_meta"]["text"][:200], "program": recs[1]["_meta"]["program"], "log_len": len(recs[1]["log"]), "outcome": recs[1]["outcome"]})
-    ev.extra.update({"documents": len(jobs), "visit_runs": len(recs), "node_kinds_covered": sorted(kinds), "n_node_kinds": len(kinds),
+    ev.extra.update({"model_pairs_replayed": n_g, "documents": len(jobs), "visit_runs": len(recs), "node_kinds_covered": sorted(kinds), "n_node_kinds": len(kinds),
                      "outcomes": {o: sum(1 for r in recs if r["outcome"] == o) for o in {r["outcome"] for r in recs}}, "clause_hits": hits})
     ev.rule = ("real ASTs (kitchen sinks + seeded full-grammar documents) x seeded visitor programs with 0..3 decision points; "
                "non-trivial = program with >= 1 decision point")
